@@ -1,7 +1,9 @@
 #!/venv/bin/python
-"""tools/run_seeds.py [seed ids...]  -- apply every seeded change under /verif/seeded to /repo in turn, run all 20 quick checks, restore /repo,
+"""tools/run_seeds.py [seed ids...]  -- apply every seeded change under /verif/seeded to a scratch copy of /repo in turn (never to /repo itself), run all 20 quick checks on it,
 and record in each meta.json which checks report it (exit 1), which lose decidability (exit 2), and the rules named."""
-import json, pathlib, subprocess, sys, re
+import json, os, pathlib, subprocess, sys, re
+sys.path.insert(0, str(pathlib.Path(__file__).resolve().parent))
+from _scratch import scratch
 V = pathlib.Path("/verif"); R = "/repo"
 PROPS = [f"C{i:02d}" for i in range(1, 21)]
 def sh(*a, **k): return subprocess.run(a, capture_output=True, text=True, **k)
@@ -12,21 +14,19 @@ rows = []
 for sid in ids:
     d = V / "seeded" / sid
     meta = json.loads((d / "meta.json").read_text())
-    r = sh("git", "-C", R, "apply", str(d / "patch.diff"))
-    if r.returncode:
-        print(sid, "patch does not apply:", r.stderr.strip()[:100]); continue
     det, err, rules = [], [], {}
-    try:
+    with scratch(d / "patch.diff") as (root, perr):
+        if perr is not None:
+            print(sid, "patch does not apply:", perr[:100]); continue
+        env = dict(os.environ, PVX_ROOT=str(root))
         from concurrent.futures import ThreadPoolExecutor
         with ThreadPoolExecutor(16) as ex:
-            outs = list(ex.map(lambda p: sh(str(V / "check"), p, "--tier", "quick", "--no-evidence"), PROPS))
+            outs = list(ex.map(lambda p: sh(str(V / "check"), p, "--tier", "quick", "--no-evidence", env=env), PROPS))
         for p, o in zip(PROPS, outs):
             if o.returncode == 1:
                 det.append(p); rules[p] = sorted(set(re.findall(r"rule=(\S+)", o.stdout)))
             elif o.returncode != 0:
                 err.append(p)
-    finally:
-        sh("git", "-C", R, "checkout", "--", ".")
     meta["checks"] = {"reported_by": det, "rules": rules, "analysis_error_in": err, "own_property_reports": meta["property"] in det}
     (d / "meta.json").write_text(json.dumps(meta, indent=1) + "\n")
     rows.append((sid, meta["property"], det, err, rules.get(meta["property"], [])))
